@@ -37,28 +37,42 @@ def handle (fn : String) : Handler := fun a _impl =>
           let plainB := B.ct.polys.getD 0 #[]
           let fa := Float.ofBits (pNat sa).toUInt64; let fb := Float.ofBits (pNat sb).toUInt64
           let model : R Ct := match op with
-            | "add" => ctTranslate l A.ct B.ct false
-            | "sub" => ctTranslate l A.ct B.ct true
+            | "add" => ctTranslateBalanced l A.ct B.ct false
+            | "sub" => ctTranslateBalanced l A.ct B.ct true
             | "negate" => ctNegate l A.ct
-            | "multiply" => ctMultiplyDyadic l A.ct B.ct
-            | "square" => ctMultiplyDyadic l A.ct A.ct
+            | "multiply" | "square" =>
+              let B' := if op == "square" then A.ct else B.ct
+              match A.scheme with
+              | .ckks => ctMultiplyDyadic l A.ct B'
+              | .bgv => bgvMultiply l A.ct B'
+              | .bfv => do
+                let bt ← Drv.C10.mkTablesAll l.k (l.tool.baseBsk.base.toList.map (·.value))
+                bfvMultiply l bt A.ct B'
             | "multiply_plain" => ctMultiplyPlainNtt l A.ct plainB
             | "add_plain" => do let c0 ← rnsAdd l (A.ct.polys.getD 0 #[]) plainB; pure { A.ct with polys := A.ct.polys.set! 0 c0 }
             | "sub_plain" => do let c0 ← rnsSub l (A.ct.polys.getD 0 #[]) plainB; pure { A.ct with polys := A.ct.polys.set! 0 c0 }
             | _ => .error .other
           let modelS := match model with
-            | .ok c => if c.polys == Rr.ct.polys then "ok" else "model-differs:" ++ (fPolys c.polys).take 160
+            | .ok c => if c.polys == Rr.ct.polys ∧ c.cf = Rr.ct.cf then "ok" else s!"model-differs(cf {c.cf} vs {Rr.ct.cf}):" ++ (fPolys c.polys).take 160
             | .error .other => "ANY"
             | .error e => "ERR:" ++ e.toStr
+          let (e1, e2) : Int × Int :=
+            if A.ct.cf = B.ct.cf ∨ B.ct.polys.size < 2 then (1, 1) else
+              match balanceCorrectionFactors A.ct.cf B.ct.cf l.t with
+              | .ok (_, x, y) => ((x : Int), (y : Int))
+              | .error _ => (1, 1)
           let want : Option Spec.ZPoly := match op with
-            | "add" | "add_plain" => some (Spec.zAdd phA phB Q)
-            | "sub" | "sub_plain" => some (Spec.zAdd phA (phB.map (fun x => -x)) Q)
+            | "add" => some (Spec.zAdd (phA.map (· * e1)) (phB.map (· * e2)) Q)
+            | "sub" => some (Spec.zAdd (phA.map (· * e1)) (phB.map (fun x => -(x * e2))) Q)
+            | "add_plain" => some (Spec.zAdd phA phB Q)
+            | "sub_plain" => some (Spec.zAdd phA (phB.map (fun x => -x)) Q)
             | "negate" => some (phA.map (fun x => (-x) % (Q : Int)))
             | "multiply" | "multiply_plain" => some (Spec.zNegMul phA phB Q)
             | "square" => some (Spec.zNegMul phA phA Q)
             | _ => none
           let okPhase := match want with
-            | some w => (List.range N).all fun j => Spec.imod (w.getD j 0 - phR.getD j 0) Q = 0
+            | some w => (A.scheme = .bfv ∧ (op == "multiply" ∨ op == "square")) ||   -- BEHZ product is rounded: semantics via `prog` lines
+                        (List.range N).all fun j => Spec.imod (w.getD j 0 - phR.getD j 0) Q = 0
             | none => -- relinearize: key-switch noise only
               let k := A.qs.length; let qmax := A.qs.foldl max 0
               let P := pNat sb   -- for relinearize the special prime travels in the second scale slot
